@@ -153,6 +153,9 @@ func c02HTML(s *flScn) string {
 				fmt.Fprintf(&b, `<div style="columns:2;column-gap:0"><p>%s</p></div>`, words(" "))
 			case 1:
 				fmt.Fprintf(&b, `<div style="columns:2;column-gap:0;column-fill:auto"><p>%s</p></div>`, words(" "))
+			case 3:
+				// a padded block made of blocks inside the columns (its bottom padding may be what does not fit)
+				fmt.Fprintf(&b, `<div style="columns:2;column-gap:0"><div style="padding-bottom:8px"><div>%s</div></div></div>`, words("</div><div>"))
 			default:
 				fmt.Fprintf(&b, `<div style="columns:2;column-gap:0"><p>%s</p></div>`, words("</p><p>"))
 			}
@@ -241,6 +244,11 @@ func c02HTML(s *flScn) string {
 				rest = append(rest, w(k))
 			}
 			fmt.Fprintf(&b, `<p>%s %s<span style="%s">a%dq1</span> %s</p>`, w(1), tall, fl, i, strings.Join(rest, " "))
+		case "avf":
+			// a block that avoids breaks inside and holds a float of three lines followed by one line per word
+			st := [...]string{"break-inside:avoid", "", "break-inside:avoid"}[it.Opt%3]
+			side := [...]string{"left", "left", "right"}[it.Opt%3]
+			fmt.Fprintf(&b, `<div style="%s"><p style="float:%s;width:50%%">a%dq1<br>a%dq2<br>a%dq3</p>%s</div>`, st, side, i, i, i, words("<br>"))
 		default:
 			b.WriteString("<p>unknownkind</p>")
 		}
